@@ -149,6 +149,10 @@ def run(ctx):
     gen = ctx.family("generic")
     gen.each_bin(lambda b, progs, r: [check_prog(ctx, r, p, max(2, n_values // 3)) for p in progs])
     ctx.cov["generic_programs"] = len(gen.progs)
+    # a slice of the corpus built in the release profile (no debug assertions / overflow checks): what gets deployed
+    rel = ctx.family("release")
+    rel.each_bin(lambda b, progs, r: [check_prog(ctx, r, p, max(2, n_values // 3)) for p in progs])
+    ctx.cov["release_profile_programs"] = len(rel.progs)
     sh = ctx.family("shadow")
     sh.each_bin(lambda b, progs, r: [check_prog(ctx, r, p, max(2, n_values // 3)) for p in progs])
     ctx.cov["shadow_programs"] = len(sh.progs)
